@@ -276,17 +276,19 @@ func (commit *Commit) FirstPrecommit() *Vote {
 }
 
 func (commit *Commit) Height() int64 {
-	if len(commit.Precommits) == 0 {
+	first := commit.FirstPrecommit() // nil also when every precommit is missing
+	if first == nil {
 		return 0
 	}
-	return commit.FirstPrecommit().Height
+	return first.Height
 }
 
 func (commit *Commit) Round() int64 {
-	if len(commit.Precommits) == 0 {
+	first := commit.FirstPrecommit()
+	if first == nil {
 		return 0
 	}
-	return commit.FirstPrecommit().Round
+	return first.Round
 }
 
 func (commit *Commit) Type() byte {
